@@ -18,14 +18,10 @@ LEAVES = {
     "pid": ("mk_pid()", 5, "pid"),
     "tuple0": ("mk_tuple(vec![])", 6, "tuple"),
     "tuple1i": ("mk_tuple(vec![mk_int()])", 6, "tuple"),
-    "tuple1f": ("mk_tuple(vec![mk_float()])", 6, "tuple"),
-    "tuple2": ("mk_tuple(vec![mk_int(), mk_atom::<1>()])", 6, "tuple"),
     "nil": ("mk_nil()", 8, "list"),
     "list0": ("mk_list(vec![])", 8, "list"),
     "list1": ("mk_list(vec![mk_int()])", 8, "list"),
-    "list2": ("mk_list(vec![mk_int(), mk_int()])", 8, "list"),
     "imp1": ("mk_improper(vec![mk_int()], mk_int())", 8, "list"),
-    "imp1n": ("mk_improper(vec![mk_int()], mk_nil())", 8, "list"),
     "bin0": ("mk_binary::<0>()", 9, "bits"),
     "bin1": ("mk_binary::<1>()", 9, "bits"),
     "bin2": ("mk_binary::<2>()", 9, "bits"),
